@@ -349,6 +349,18 @@ fn struct_fields(file: &syn::File, name: &str) -> Option<Vec<(String, syn::Type)
 fn extract_fn(cx: &mut Ctx, specs: &mut Specs, em: &mut Emitter, ex: &Extract) {
     let Some(file) = cx.file(&ex.file) else { return; };
     let found = find_fn(&file, &ex.path, 0);
+    let mut found = found;
+    if found.is_empty() && ex.opt("absent").as_deref() == Some("empty") {
+        // S2: no `impl Drop` means the drop glue runs no user code: verify the empty body against the same contract
+        let (_, rest) = ex.path.split_once('@').unwrap_or(("", ex.path.as_str()));
+        let ty = rest.rsplit_once("::").map(|x| x.0).unwrap_or("");
+        let mut items = vec![]; all_items(&file.items, &mut items);
+        if let Some(st) = items.iter().find_map(|it| if let syn::Item::Struct(s) = it { if s.ident == ty { Some(s.clone()) } else { None } } else { None }) {
+            let id = &st.ident; let (ig, tg, wc) = st.generics.split_for_impl();
+            let im: syn::ItemImpl = syn::parse_quote!(impl #ig Drop for #id #tg #wc { fn drop(&mut self) {} });
+            if let syn::ImplItem::Fn(f) = &im.items[0] { found.push(Found { im: Some(im.clone()), tr: None, f: FnLike { attrs: vec![], sig: f.sig.clone(), block: f.block.clone() } }); cx.fire("S2"); cx.soft.push(format!("note: `{}` is absent in {}; verified as the empty drop glue", ex.path, ex.file)); }
+        }
+    }
     let found: Vec<Found> = match ex.opt("nth").and_then(|n| n.parse::<usize>().ok()) { Some(n) => found.into_iter().skip(n).take(1).collect(), None => found };
     if found.len() != 1 { cx.err(format!("lost anchor: {} `{}` in {}: {} candidates", ex.kind, ex.path, ex.file, found.len())); return; }
     if ex.opt("poll").as_deref() == Some("yes") || ex.opt("inherent").as_deref() == Some("yes") {
@@ -633,6 +645,13 @@ fn entry_text(cx: &Ctx, extra: Option<String>) -> Option<String> {
 fn fnv(s: &str) -> u64 { let mut h: u64 = 0xcbf29ce484222325; for b in s.bytes() { h ^= b as u64; h = h.wrapping_mul(0x100000001b3); } h % 1_000_000_007 }
 
 /// constructor stand-in (what the code object owns) and, if the spec gives a signature, the lifted body as a function under contract
+/// `$0`, `$1`, .. in the contract sections of a lifted closure stand for its captures in capture order (so that renaming a
+/// captured variable does not detach the contract)
+fn positional(txt: String, lc: &rewrite::LiftedClosure) -> String {
+    let mut t = txt;
+    for (i, c) in lc.captures.iter().enumerate().rev() { t = t.replace(&format!("${}", i), &(if c == "self" { "this".to_string() } else { c.replace("self.", "self_") })); }
+    t
+}
 fn emit_lifted(cx: &mut Ctx, specs: &mut Specs, em: &mut Emitter, gens: &[&syn::Generics], lc: &rewrite::LiftedClosure, file: &str) -> Vec<rewrite::LiftedClosure> {
     let (gtxt_all, wtxt_all) = generics_text(gens, &[], cx);
     let kind = if lc.is_async_block { "async block" } else { "closure" };
@@ -642,7 +661,7 @@ fn emit_lifted(cx: &mut Ctx, specs: &mut Specs, em: &mut Emitter, gens: &[&syn::
     let mut own = String::from("own_none()");
     let mut tps = vec![]; let mut ps = vec![]; let mut any_typed = false;
     for (i, c) in lc.captures.iter().enumerate() {
-        let c = if c == "self" { "this".to_string() } else { c.clone() };
+        let c = if c == "self" { "this".to_string() } else { c.replace("self.", "self_") };
         match specs.get(&format!("captype {} {}", ctor, c)) {
             Some(t) => { any_typed = true; ps.push(format!("{}: {}", c, t.trim())); }
             None => { tps.push(format!("HxT{}", i)); ps.push(format!("{}: HxT{}", c, i)); }
@@ -652,23 +671,24 @@ fn emit_lifted(cx: &mut Ctx, specs: &mut Specs, em: &mut Emitter, gens: &[&syn::
     em.raw(&format!("pub open spec fn {}__code() -> int {{ {} }}", lc.name, fnv(&lc.name)));
     let start = em.line();
     em.raw("#[verifier::external_body] // @closure-constructor: a closure object owns exactly what its literal captures (Rust semantics)");
+    let ret_obj = specs.get(&format!("ret {}", ctor)).map(|s| s.trim().to_string()).unwrap_or_else(|| "ClosureObj".to_string());
     match specs.get(&format!("sig {}", ctor)) {
-        Some(sig) => em.raw(&format!("pub fn {}{}{} -> (r: ClosureObj){}", ctor, gtxt_all, sig.trim(), wtxt_all)),
+        Some(sig) => em.raw(&format!("pub fn {}{}{} -> (r: {}){}", ctor, gtxt_all, positional(sig, lc).trim(), ret_obj, wtxt_all)),
         None if any_typed => {
             // enclosing generics first (they appear in the capture types the spec gives), then one parameter per generic capture
             let g = gtxt_all.trim().trim_start_matches('<').trim_end_matches('>').to_string();
             let mut all: Vec<String> = if g.is_empty() { vec![] } else { vec![g] }; all.extend(tps.clone());
-            em.raw(&format!("pub fn {}<{}>({}) -> (r: ClosureObj){}", ctor, all.join(", "), ps.join(", "), wtxt_all));
+            em.raw(&format!("pub fn {}<{}>({}) -> (r: {}){}", ctor, all.join(", "), ps.join(", "), ret_obj, wtxt_all));
         }
-        None => em.raw(&format!("pub fn {}{}({}) -> (r: ClosureObj)", ctor, if tps.is_empty() { String::new() } else { format!("<{}>", tps.join(", ")) }, ps.join(", "))),
+        None => em.raw(&format!("pub fn {}{}({}) -> (r: {})", ctor, if tps.is_empty() { String::new() } else { format!("<{}>", tps.join(", ")) }, ps.join(", "), ret_obj)),
     }
     em.raw(&format!("    ensures r.captured() == {}, r.code() == {},", own, fnv(&lc.name)));
-    if let Some(extra) = specs.get(&format!("new {}", lc.name)) { em.raw_block(&extra, ""); }
+    if let Some(extra) = specs.get(&format!("new {}", lc.name)) { em.raw_block(&positional(extra, lc), ""); }
     em.raw("{ unimplemented!() }");
     em.functions.push(emit::FnInfo { name: ctor.clone(), file: file.to_string(), src_line: lc.line, gen_start: start, gen_end: em.line(), kind: "closure-constructor".into(), path: lc.name.clone(), loops: 0, captured: lc.captures.clone() });
     em.raw("");
     // ---- lifted body, only when the spec gives its signature
-    let Some(sig) = specs.get(&format!("sig {}", lc.name)) else { return vec![]; };
+    let Some(sig) = specs.get(&format!("sig {}", lc.name)).map(|t| positional(t, lc)) else { return vec![]; };
     let mut block = lc.body.clone();
     rewrite::inline_tail_async(&mut block, cx);
     let mut binders = BTreeSet::new();
@@ -708,7 +728,7 @@ fn emit_lifted(cx: &mut Ctx, specs: &mut Specs, em: &mut Emitter, gens: &[&syn::
     let gtxt_all = if extra_gen.is_empty() { gtxt_all.clone() } else { let g = gtxt_all.trim().trim_start_matches('<').trim_end_matches('>').to_string(); let mut all: Vec<String> = if g.is_empty() { vec![] } else { vec![g] }; all.extend(extra_gen); format!("<{}>", all.join(", ")) };
     let ghost = if specs.get(&format!("pure {}", lc.name)).is_some() { String::new() } else { format!("{}Tracked(w): Tracked<&mut World>", if params.trim().is_empty() { "" } else { ", " }) };
     em.raw(&format!("pub fn {}{}({}{}){}{}", lc.name, gtxt_all, params, ghost, match &ret { Some(r) => format!(" -> (r: {})", r), None => String::new() }, wtxt_all));
-    if let Some(sp) = specs.get(&format!("fn {}", lc.name)) { em.raw_block(&sp, ""); }
+    if let Some(sp) = specs.get(&format!("fn {}", lc.name)) { em.raw_block(&positional(sp, lc), ""); }
     let proof_entry = entry_text(cx, specs.get(&format!("proof {} entry", lc.name)));
     let mut loopspecs: BTreeMap<usize, (String, Option<String>, Option<String>)> = BTreeMap::new();
     for k in 0..nloops { loopspecs.insert(k, (specs.get(&format!("loop {} {}", lc.name, k)).unwrap_or_default(), entry_text(cx, specs.get(&format!("proof {} loop {} start", lc.name, k))), specs.get(&format!("proof {} loop {} end", lc.name, k)))); }
